@@ -18,6 +18,18 @@
 // division-by-zero panic just mentioned); untyped constant expressions are
 // exact. A (T, error) result becomes `res T` (Ok v | Err): any non-nil error
 // is Err.
+//
+// Extensions (used by C34): parameters of type []int become `list Z`
+// (len(x) -> slice_len x, x[i] -> slice_at x i; an index out of range, a panic
+// in Go, is 0 in the model; both helpers are emitted into the generated file);
+// parameters of any other non-scalar type (e.g. *model.NUp) are dropped and
+// every read through them must be listed in -rename
+// ("nup.N()=nupN;nup.PageDim.Landscape()=landscape:bool"): the renamed
+// expressions become extra parameters (sorted by name) appended to every
+// generated function and passed through unchanged at calls; iota constant
+// blocks of the translated files are understood, and pkg.Name refers to such a
+// constant when pkg is listed in -pkgconst; functions with several non-error
+// results return tuples (`a, b := f(..)` and `return f(..)` are supported).
 package main
 
 import (
@@ -40,6 +52,7 @@ const (
 	kUnsigned
 	kBool
 	kErr
+	kSlice // []int
 )
 
 type typ struct {
@@ -51,7 +64,23 @@ var (
 	tUntyped = typ{kUntyped, ""}
 	tBool    = typ{kBool, ""}
 	tErr     = typ{kErr, ""}
+	tSlice   = typ{kSlice, "IW"}
 )
+
+// typeOfExpr understands scalar type names and []int.
+func typeOfExpr(e ast.Expr) (typ, bool) {
+	switch x := e.(type) {
+	case *ast.Ident:
+		return typeOfName(x.Name)
+	case *ast.ArrayType:
+		if x.Len == nil {
+			if id, ok := x.Elt.(*ast.Ident); ok && id.Name == "int" {
+				return tSlice, true
+			}
+		}
+	}
+	return typ{}, false
+}
 
 func typeOfName(n string) (typ, bool) {
 	switch n {
@@ -89,6 +118,7 @@ type fnSig struct {
 	ptypes  []typ
 	results []typ // without trailing error
 	hasErr  bool
+	keep    []bool // per Go parameter position: false = dropped (non-scalar, reads renamed)
 }
 
 type tr struct {
@@ -97,6 +127,9 @@ type tr struct {
 	sigs   map[string]*fnSig
 	rename map[string]string // expression text -> parameter name (struct reads)
 	extra  map[string]typ     // types for renamed expressions
+	extraParams []string      // sorted names of the extra parameters
+	pkgConst map[string]bool  // package qualifiers whose constants are looked up in consts
+	usesSlice bool
 }
 
 type env struct {
@@ -143,7 +176,7 @@ func mathConst(name string) (string, bool) {
 func ident(s string) string {
 	// Gallina keywords / clashes
 	switch s {
-	case "in", "end", "at", "as", "fun", "fix", "let", "match", "with", "then", "else", "if", "return", "Type", "Prop", "Set", "exists", "forall", "mod":
+	case "in", "end", "at", "as", "fun", "fix", "let", "match", "with", "then", "else", "if", "return", "Type", "Prop", "Set", "exists", "forall", "mod", "N", "Z":
 		return s + "_"
 	}
 	return s
@@ -218,6 +251,13 @@ func (t *tr) expr(e ast.Expr, en *env) (string, typ) {
 				return s, tUntyped
 			}
 		}
+		if p, ok := x.X.(*ast.Ident); ok && t.pkgConst[p.Name] {
+			if _, isVar := en.vars[p.Name]; !isVar {
+				if c, ok := t.consts[x.Sel.Name]; ok {
+					return t.expr(c, &env{vars: map[string]typ{}, errNil: map[string]bool{}})
+				}
+			}
+		}
 		t.fail(x, "unsupported selector %s", exprText(x))
 	case *ast.UnaryExpr:
 		s, ty := t.expr(x.X, en)
@@ -244,6 +284,13 @@ func (t *tr) expr(e ast.Expr, en *env) (string, typ) {
 				}
 				return "(wrapU " + ty.w + " " + s + ")", ty
 			}
+			if id.Name == "len" && len(x.Args) == 1 {
+				s, ty := t.expr(x.Args[0], en)
+				if ty.k != kSlice {
+					t.fail(x, "len of a non-slice")
+				}
+				return "(slice_len " + s + ")", typ{kSigned, "IW"}
+			}
 			if sg, ok := t.sigs[id.Name]; ok {
 				if sg.hasErr || len(sg.results) != 1 {
 					t.fail(x, "call of %s in expression position needs a single non-error result", id.Name)
@@ -252,19 +299,35 @@ func (t *tr) expr(e ast.Expr, en *env) (string, typ) {
 			}
 		}
 		t.fail(x, "unsupported call %s", exprText(x))
+	case *ast.IndexExpr:
+		s, ty := t.expr(x.X, en)
+		if ty.k != kSlice {
+			t.fail(x, "index of a non-slice")
+		}
+		i, it := t.expr(x.Index, en)
+		if it.k != kSigned && it.k != kUntyped {
+			t.fail(x, "unsupported index type")
+		}
+		return "(slice_at " + s + " " + i + ")", typ{kSigned, "IW"}
 	}
 	t.fail(e, "unsupported expression %T", e)
 	return "", typ{}
 }
 
 func (t *tr) call(sg *fnSig, x *ast.CallExpr, en *env) string {
-	if len(x.Args) != len(sg.params) {
+	if len(x.Args) != len(sg.keep) {
 		t.fail(x, "arity mismatch calling %s", sg.name)
 	}
 	parts := []string{sg.name, "IW"}
-	for _, a := range x.Args {
+	for i, a := range x.Args {
+		if !sg.keep[i] {
+			continue
+		}
 		s, _ := t.expr(a, en)
 		parts = append(parts, s)
+	}
+	for _, e := range t.extraParams {
+		parts = append(parts, ident(e))
 	}
 	return "(" + strings.Join(parts, " ") + ")"
 }
@@ -412,6 +475,21 @@ func (t *tr) ret(r *ast.ReturnStmt, en *env) string {
 			v = "(" + v + ")"
 		}
 		return t.errResult(r.Results[n], v, en)
+	}
+	if len(r.Results) == 1 && n > 1 {
+		if c, ok := r.Results[0].(*ast.CallExpr); ok {
+			if id, ok := c.Fun.(*ast.Ident); ok {
+				if g, ok := t.sigs[id.Name]; ok && !g.hasErr && len(g.results) == n {
+					for i := range g.results {
+						if g.results[i] != sg.results[i] {
+							t.fail(r, "result type mismatch returning %s", id.Name)
+						}
+					}
+					return t.call(g, c, en)
+				}
+			}
+		}
+		t.fail(r, "unsupported return form")
 	}
 	if len(r.Results) != n {
 		t.fail(r, "return arity")
@@ -652,6 +730,36 @@ func (t *tr) assign(x *ast.AssignStmt, rest []ast.Stmt, en *env) string {
 			}
 		}
 	}
+	if len(x.Rhs) == 1 && len(x.Lhs) > 1 {
+		if c, ok := x.Rhs[0].(*ast.CallExpr); ok {
+			if id, ok := c.Fun.(*ast.Ident); ok {
+				if g, ok := t.sigs[id.Name]; ok && !g.hasErr {
+					if len(x.Lhs) != len(g.results) {
+						t.fail(x, "assignment arity")
+					}
+					callS := t.call(g, c, en)
+					names := []string{}
+					for i, l := range x.Lhs {
+						lid, ok := l.(*ast.Ident)
+						if !ok {
+							t.fail(x, "unsupported assignment target")
+						}
+						if lid.Name == "_" {
+							names = append(names, "_")
+							continue
+						}
+						if x.Tok == token.DEFINE {
+							en.vars[lid.Name] = g.results[i]
+						} else if old, ok := en.vars[lid.Name]; !ok || old != g.results[i] {
+							t.fail(x, "assignment to unknown or differently typed variable %s", lid.Name)
+						}
+						names = append(names, ident(lid.Name))
+					}
+					return "(let '(" + strings.Join(names, ", ") + ") := " + callS + " in " + t.stmts(rest, en) + ")"
+				}
+			}
+		}
+	}
 	if len(x.Lhs) != len(x.Rhs) {
 		t.fail(x, "unsupported assignment shape")
 	}
@@ -726,18 +834,32 @@ func (t *tr) assign(x *ast.AssignStmt, rest []ast.Stmt, en *env) string {
 func (t *tr) signature(fd *ast.FuncDecl, paramSubst map[string]typ) *fnSig {
 	sg := &fnSig{name: fd.Name.Name}
 	for _, f := range fd.Type.Params.List {
-		id, ok := f.Type.(*ast.Ident)
-		var ty typ
-		if ok {
-			ty, ok = typeOfName(id.Name)
+		ty, ok := typeOfExpr(f.Type)
+		if ok && (ty.k == kErr) {
+			ok = false
+		}
+		cnt := len(f.Names)
+		if cnt == 0 {
+			cnt = 1
 		}
 		if !ok {
 			// non-scalar parameter: allowed only if every use is renamed; it is dropped
+			for i := 0; i < cnt; i++ {
+				sg.keep = append(sg.keep, false)
+			}
 			continue
 		}
-		for _, n := range f.Names {
-			sg.params = append(sg.params, n.Name)
+		if ty.k == kSlice {
+			t.usesSlice = true
+		}
+		for i := 0; i < cnt; i++ {
+			nm := fmt.Sprintf("unused%d_", len(sg.keep))
+			if i < len(f.Names) && f.Names[i].Name != "_" {
+				nm = f.Names[i].Name
+			}
+			sg.params = append(sg.params, nm)
 			sg.ptypes = append(sg.ptypes, ty)
+			sg.keep = append(sg.keep, true)
 		}
 	}
 	if fd.Type.Results != nil {
@@ -797,8 +919,14 @@ func main() {
 	funcs := flag.String("funcs", "", "comma-separated function names (methods as Recv.Name), in dependency order")
 	out := flag.String("out", "", "output .v file")
 	renames := flag.String("rename", "", "semicolon-separated exprtext=param[:type] substitutions for struct reads, appended as extra parameters")
+	pkgconst := flag.String("pkgconst", "", "comma-separated package qualifiers whose constants (pkg.Name) are looked up among the constants of the translated files")
 	flag.Parse()
-	t := &tr{fset: token.NewFileSet(), consts: map[string]ast.Expr{}, sigs: map[string]*fnSig{}, rename: map[string]string{}, extra: map[string]typ{}}
+	t := &tr{fset: token.NewFileSet(), consts: map[string]ast.Expr{}, sigs: map[string]*fnSig{}, rename: map[string]string{}, extra: map[string]typ{}, pkgConst: map[string]bool{}}
+	if *pkgconst != "" {
+		for _, p := range strings.Split(*pkgconst, ",") {
+			t.pkgConst[p] = true
+		}
+	}
 	var extraParams []string
 	if *renames != "" {
 		for _, r := range strings.Split(*renames, ";") {
@@ -845,10 +973,22 @@ func main() {
 			case *ast.GenDecl:
 				if x.Tok == token.CONST {
 					var last ast.Expr
-					for _, sp := range x.Specs {
+					lastIota := false
+					for idx, sp := range x.Specs {
 						vs := sp.(*ast.ValueSpec)
 						for i, n := range vs.Names {
-							if len(vs.Values) > i {
+							isIota := func(e ast.Expr) bool {
+								id, ok := e.(*ast.Ident)
+								return ok && id.Name == "iota"
+							}
+							if len(vs.Values) > i && isIota(vs.Values[i]) && len(vs.Names) == 1 {
+								last = vs.Values[i]
+								lastIota = true
+								t.consts[n.Name] = &ast.BasicLit{ValuePos: n.Pos(), Kind: token.INT, Value: strconv.Itoa(idx)}
+							} else if len(vs.Values) == 0 && lastIota && len(vs.Names) == 1 {
+								t.consts[n.Name] = &ast.BasicLit{ValuePos: n.Pos(), Kind: token.INT, Value: strconv.Itoa(idx)}
+							} else if len(vs.Values) > i {
+								lastIota = false
 								last = vs.Values[i]
 								t.consts[n.Name] = vs.Values[i]
 							} else if last != nil {
@@ -862,8 +1002,6 @@ func main() {
 		}
 	}
 	var b strings.Builder
-	fmt.Fprintf(&b, "(* GENERATED by go2gallina from %s -- do not edit; regenerated on every check run *)\n", strings.Join(files, ", "))
-	b.WriteString("From PV Require Import Lib.GoInt.\nOpen Scope Z_scope.\nOpen Scope bool_scope.\n\n")
 	status := 0
 	names := strings.Split(*funcs, ",")
 	// signatures first so calls resolve regardless of order
@@ -893,6 +1031,14 @@ func main() {
 		os.Exit(status)
 	}
 	sort.Strings(extraParams)
+	t.extraParams = extraParams
+	fmt.Fprintf(&b, "(* GENERATED by go2gallina from %s -- do not edit; regenerated on every check run *)\n", strings.Join(files, ", "))
+	b.WriteString("From PV Require Import Lib.GoInt.\nOpen Scope Z_scope.\nOpen Scope bool_scope.\n\n")
+	if t.usesSlice {
+		b.WriteString("(* []int: an index out of range (a Go panic) is 0 in the model *)\n")
+		b.WriteString("Definition slice_len (l : list Z) : Z := Z.of_nat (length l).\n")
+		b.WriteString("Definition slice_at (l : list Z) (i : Z) : Z := if (i <? 0) then 0 else nth (Z.to_nat i) l 0.\n\n")
+	}
 	for _, fn := range names {
 		fd := decls[fn]
 		sg := t.sigs[fd.Name.Name]
@@ -915,7 +1061,20 @@ func main() {
 				if sg.ptypes[i].k == kBool {
 					ct = "bool"
 				}
+				if sg.ptypes[i].k == kSlice {
+					ct = "list Z"
+				}
 				ps = append(ps, "("+ident(p)+" : "+ct+")")
+			}
+			for _, e := range t.extraParams {
+				ct := "Z"
+				if t.extra[e].k == kBool {
+					ct = "bool"
+				}
+				if _, clash := en.vars[e]; clash {
+					t.fail(fd, "extra parameter %s clashes with a parameter of %s", e, sg.name)
+				}
+				ps = append(ps, "("+ident(e)+" : "+ct+")")
 			}
 			body := t.stmts(fd.Body.List, en)
 			fmt.Fprintf(&b, "Definition %s %s : %s :=\n  %s.\n\n", sg.name, strings.Join(ps, " "), coqType(sg.results, sg.hasErr), body)
